@@ -16,7 +16,7 @@ import (
 func init() {
 	register("C03", &propDef{
 		Title: "What is shipped is decided by .terraformignore semantics on archive paths",
-		Rules: []func(*Checker){ruleC03Emit, ruleC03Bundle, ruleC03Prune, ruleC03Arg, ruleC03Meta, ruleC03Glob, ruleC03LastWins, ruleC03Parse, ruleC03Off, ruleC03Shared, ruleC03RuleFile, ruleWalkRoles("C03.roles"), ruleBundleWalkChain("C03.bundlechain"), ruleC03MatchErr, ruleMatchByRegexpOnly("C03.byregexp"), rulePackerWriters("C03.percall"), ruleRuleFileRefusals("C03.readfails"), ruleDefaultRulesOrder("C03.defaults")},
+		Rules: []func(*Checker){ruleC03Emit, ruleC03Bundle, ruleLoadedRulesReachTheWalk("C03.loadedrules"), ruleC03Prune, ruleC03Arg, ruleC03Meta, ruleC03Glob, ruleC03LastWins, ruleC03Parse, ruleC03Off, ruleC03Shared, ruleC03RuleFile, ruleWalkRoles("C03.roles"), ruleBundleWalkChain("C03.bundlechain"), ruleC03MatchErr, ruleMatchByRegexpOnly("C03.byregexp"), rulePackerWriters("C03.percall"), ruleRuleFileRefusals("C03.readfails"), ruleDefaultRulesOrder("C03.defaults")},
 		NotDecided: []string{
 			"the meaning of a whole pattern: composition of the translated fragments, the '**' forms beyond 'can cross separators', anchoring arithmetic (properties of run-time strings); C03.glob decides only the constant fragments emitted for '?', '*' and ordinary characters",
 			"the content of the built-in default rule table",
